@@ -790,12 +790,20 @@ class CommandPipeline:
                     except (ProcessLookupError, OSError):
                         pass
 
+    def _prev_specs_procs(self):
+        """(spec, proc) of every started stage in front of the last one. When a
+        stage failed to start (``self.proc is None``) there is no last proc:
+        every stage that was started is a previous one and must be torn down.
+        """
+        procs = self.procs if self.proc is None else self.procs[:-1]
+        return zip(self.specs[:-1], procs, strict=False)
+
     def _prev_procs_done(self):
         """Boolean for if all previous processes have completed. If there
         is only a single process in the pipeline, this returns False.
         """
         any_running = False
-        for s, p in zip(self.specs[:-1], self.procs[:-1], strict=False):
+        for s, p in self._prev_specs_procs():
             if p is None or p.poll() is None:
                 any_running = True
                 continue
@@ -827,7 +835,7 @@ class CommandPipeline:
 
     def _close_prev_procs(self):
         """Closes all but the last proc's stdout."""
-        for s, p in zip(self.specs[:-1], self.procs[:-1], strict=False):
+        for s, p in self._prev_specs_procs():
             self._safe_close(s.stdin)
             self._safe_close(s.stderr)
             # Close read ends of connection pipes to unblock any blocked writes,
